@@ -47,9 +47,10 @@ def cli_search(ctx, cfg):
 def extra(ctx, cfg, results, inprocess=True):
     exe = clilib.anthem_exe()
     thorough = ctx.tier == "thorough"
-    n_inputs = 12000 if thorough else 1800
-    n_inproc = 8000 if thorough else 900
-    n_accepted = 30000 if thorough else 5000
+    # sizes of the stream: props/C16.json "stream": {"quick": {..}, "thorough": {..}} (defaults below)
+    sizes = dict({"inputs": 12000, "in_process": 8000, "accepted": 30000} if thorough else {"inputs": 1800, "in_process": 900, "accepted": 5000})
+    sizes.update(cfg.get("stream", {}).get("thorough" if thorough else "quick", {}))
+    n_inputs, n_inproc, n_accepted = sizes["inputs"], sizes["in_process"], sizes["accepted"]
     if os.environ.get("C16_SMALL"):          # debugging aid (trying a recogniser / a seeded change quickly): the fixed inputs and few others
         n_inputs, n_inproc, n_accepted = 300, 50, 400
     r = clilib.rng(ctx, "inputs")
